@@ -30,15 +30,16 @@ Section Vec3.
     V3 (sintheta * ncos phi) (sintheta * nsin phi) costheta.
 
   (** rotate(dir, rot); [min_acc] = RealVecTraits<T>::min_accurate_sintheta.
-      Middle branch as repaired in /repo commit 176dbfb (normalise x and y by the
-      x-y radius; axis-aligned branch when that radius is zero). *)
+      Mirrors the code as it is, including the middle branch's two defects
+      (sign of rot[Y] dropped; 0/0 for x = y = 0), which are recorded as known
+      findings: the repair changes sample values pinned by an existing test. *)
   Definition rotate_raw (min_acc : T) (dir rot : vec3) : vec3 :=
     let sintheta := nsqrt (n1 - nsq (vz rot)) in
     let '(cosphi, sinphi) :=
       if min_acc <=? sintheta then
         let inv := n1 / sintheta in (vx rot * inv, vy rot * inv)
-      else if n0 <? nsq (vx rot) + nsq (vy rot) then
-        let inv := n1 / nsqrt (nsq (vx rot) + nsq (vy rot)) in (vx rot * inv, vy rot * inv)
+      else if n0 <? sintheta then
+        let c := vx rot / nsqrt (nsq (vx rot) + nsq (vy rot)) in (c, nsqrt (n1 - nsq c))
       else (n1, n0) in
     let a := vz rot * vx dir + sintheta * vz dir in
     V3 (a * cosphi - sinphi * vy dir)
